@@ -280,3 +280,7 @@ def run(ctx):
     ctx.assume("rotation / reflection helpers of Geoms._utils are covered under C08 (R8.3)")
     frame_rule(ctx)
     pmat_rules(ctx)
+    # moving the mesh of a live simulation: every motion notifies (R14.4)
+    from . import c14
+
+    c14.motion_notify_rule(ctx)
